@@ -329,6 +329,10 @@ func checkIdentifierTaint(r *Run, identSanitised bool) {
 					if os.Getenv("DAWGSVET_DEBUG") != "" && strings.Contains(construct, "CountAlias") {
 						r.Logf("debug %s: %v", construct, sortedKeys(o))
 					}
+					if unq, unquoted := hasTagPrefix(o, "call:"+modPath+"/cypher/models/cypher.Unescape"); unquoted {
+						r.Fail("C04-R3-identifier-position", construct, e.Pos(), "an identifier whose Cypher quoting was removed (%s) is placed in a %s position: formatIdentifier leaves names made of letters, digits, '_', '$', '.' and '*' undelimited, which is safe only while a user name containing '.' or '*' still carries its backticks; unquoted, `s0.n0` is written as the compound reference s0.n0", strings.TrimPrefix(unq, "call:"), pos)
+						return
+					}
 					if u := isUser(o); u != "" {
 						// values that went through the alias table come back as generated identifiers
 						if _, viaBinding := hasTagPrefix(o, "field:BoundIdentifier.Identifier"); viaBinding && !strings.Contains(exprString(r.Fset, e), "Alias") && !strings.Contains(exprString(r.Fset, e), "Symbol") && !o["field:AggregateTraversalCountShape.CountAlias"] {
@@ -346,6 +350,17 @@ func checkIdentifierTaint(r *Run, identSanitised bool) {
 				}
 				ast.Inspect(fd.Body, func(n ast.Node) bool {
 					switch x := n.(type) {
+					case *ast.AssignStmt:
+						// X.Expression = identifier: an identifier stored as an expression node of the SQL AST
+						if len(x.Lhs) == len(x.Rhs) {
+							for i, l := range x.Lhs {
+								if sel, ok := ast.Unparen(l).(*ast.SelectorExpr); ok {
+									if s := info.Selections[sel]; s != nil && s.Kind() == types.FieldVal && namedName(s.Obj().Type()) == "Expression" {
+										report("expression-field "+namedName(s.Recv())+"."+sel.Sel.Name, x.Rhs[i])
+									}
+								}
+							}
+						}
 					case *ast.CompositeLit:
 						tv, ok := info.Types[x]
 						if !ok {
